@@ -116,6 +116,10 @@ HAND = [
     ('RecoverThenPanic', 'func RecoverThenPanic(a int, c1, c2, p1 bool, n int, s []int) (r int) {\n\tdefer func() {\n\t\tif e := recover(); e != nil {\n\t\t\tr = e.(int) * 10\n\t\t}\n\t}()\n\tdefer func() {\n\t\te := recover()\n\t\ttrace(64)\n\t\tif v, ok := e.(int); ok && c1 {\n\t\t\tpanic(v + 100)\n\t\t}\n\t}()\n\tpanic(a)\n}\n'),
     # loop defers, then a conditional defer of a plain no-argument function, then loop defers
     ('LoopCondPlainLoop', 'func LoopCondPlainLoop(a int, c1, c2, p1 bool, n int, s []int) (r int) {\n\tfor i := 0; i < n&3; i++ {\n\t\tdefer trace(100 + i)\n\t}\n\tif c1 {\n\t\tdefer mark55()\n\t}\n\tfor i := 0; i < a&3; i++ {\n\t\tdefer trace(200 + i)\n\t}\n\tif p1 {\n\t\tpanic(9)\n\t}\n\treturn a\n}\n'),
+    # two conditional defers of one branch with a call that may panic between them: the
+    # second one must not run (and must not pop the first one's arguments) when it was never reached
+    ('CondDefersAroundPanicPoint', 'func CondDefersAroundPanicPoint(a int, c1, c2, p1 bool, n int, s []int) (r int) {\n\tdefer func() {\n\t\tif e := recover(); e != nil {\n\t\t\ttrace(902)\n\t\t}\n\t}()\n\tif c1 {\n\t\tdefer mark55()\n\t\tr += inner(false, p1, a)\n\t\tdefer func() { trace(60) }()\n\t}\n\treturn r\n}\n'),
+    ('CondArgDefersAroundPanicPoint', 'func CondArgDefersAroundPanicPoint(a int, c1, c2, p1 bool, n int, s []int) (r int) {\n\tdefer func() {\n\t\tif e := recover(); e != nil {\n\t\t\ttrace(902)\n\t\t}\n\t}()\n\tif c1 {\n\t\tdefer trace(40 + a)\n\t\tif c2 {\n\t\t\tdefer trace(50 + a)\n\t\t}\n\t\tr += inner(false, p1, a)\n\t\tdefer trace(60 + a)\n\t}\n\treturn r\n}\n'),
     ('RecoverIndirect', 'func RecoverIndirect(a int, c1, c2, p1 bool, n int, s []int) (r int) {\n\tdefer func() {\n\t\ttrace(90 + helperRecover())\n\t}()\n\tif p1 {\n\t\tpanic(91)\n\t}\n\treturn a\n}\n'),
 ]
 
